@@ -89,6 +89,7 @@ structure FbObj where
 /-- The report (the part construction touches) together with the class-attribute store. -/
 structure World where
   store : Store
+  fmtId : String                        -- which formatter object `report.format` is
   avail : List String                   -- `report.format.available`
   feedback : List Nat                   -- ids, in order
   ignored : List Nat
@@ -166,43 +167,43 @@ def initObj (w : World) (sp : FbSpec) : FbObj :=
     exc := none }
 
 /-- `_get_justification(met)` for string justifications / string templates. -/
-def getJustification (O : Oracle) (avail : List String) (o : FbObj) (met : Bool) : Except Exc (Option String) :=
+def getJustification (O : Oracle) (F : String) (avail : List String) (o : FbObj) (met : Bool) : Except Exc (Option String) :=
   match o.justification with
   | some j => .ok (some (if met then j else unmetPrefix ++ j))
   | none =>
     match o.justificationTemplate with
     | some t =>
-      match render O avail o.fields (.lit unmetPrefix :: t) with
+      match render O F avail o.fields (.lit unmetPrefix :: t) with
       | .ok r => .ok (some r)
       | .error e => .error e
     | none => .ok defaultJustification
 
 /-- `Feedback._get_message` (the default implementation). -/
-def defaultMessage (O : Oracle) (avail : List String) (o : FbObj) : Except Exc (Option String) :=
+def defaultMessage (O : Oracle) (F : String) (avail : List String) (o : FbObj) : Except Exc (Option String) :=
   match o.message with
   | some m => .ok (some m)
   | none =>
     match o.messageTemplate with
     | some t =>
-      match render O avail o.fields t with
+      match render O F avail o.fields t with
       | .ok r => .ok (some r)
       | .error e => .error e
     | none => .ok defaultFeedbackMessage
 
 /-- `self._get_message()` for this object's class. -/
-def getMessage (O : Oracle) (avail : List String) (o : FbObj) : Except Exc (Option String) :=
+def getMessage (O : Oracle) (F : String) (avail : List String) (o : FbObj) : Except Exc (Option String) :=
   match o.msg with
-  | .default => defaultMessage O avail o
+  | .default => defaultMessage O F avail o
   | .returns m => .ok m
   | .raises e => .error e
 
-def getElseMessage (O : Oracle) (avail : List String) (o : FbObj) : Except Exc (Option String) :=
+def getElseMessage (O : Oracle) (F : String) (avail : List String) (o : FbObj) : Except Exc (Option String) :=
   match o.elseMessage with
   | some m => .ok (some m)
   | none =>
     match o.elseMessageTemplate with
     | some t =>
-      match render O avail o.fields t with
+      match render O F avail o.fields t with
       | .ok r => .ok (some r)
       | .error e => .error e
     | none => .ok defaultElseMessage
@@ -217,26 +218,26 @@ def evalCond (o : FbObj) : Except Exc Bool :=
 def failWith (o : FbObj) (e : Exc) : FbObj := { o with met := false, exc := some e, status := .error }
 
 /-- The `try:` block of `_handle_condition`, including what it has already assigned when it fails. -/
-def evalHandle (O : Oracle) (avail : List String) (o : FbObj) : FbObj :=
+def evalHandle (O : Oracle) (F : String) (avail : List String) (o : FbObj) : FbObj :=
   let o := { o with exc := none }
   match evalCond o with
   | .error e => failWith o e
   | .ok met =>
     let o := { o with met := met }
-    match getJustification O avail o met with
+    match getJustification O F avail o met with
     | .error e => failWith o e
     | .ok j =>
       let o := { o with justification := j }
       if met then
-        match getMessage O avail o with
+        match getMessage O F avail o with
         | .error e => failWith o e
         | .ok m => { o with message := m, status := .active }
       else
-        match getElseMessage O avail o with
+        match getElseMessage O F avail o with
         | .error e => failWith o e
         | .ok em =>
           let o := { o with elseMessage := em, message := em }
-          let unused := match getMessage O avail o with
+          let unused := match getMessage O F avail o with
             | .ok m => m
             | .error _ => some ""
           { o with unusedMessage := unused, status := .inactive }
@@ -257,7 +258,7 @@ structure Answer where
 
 /-- `_handle_condition()` -/
 def handle (O : Oracle) (w : World) (o : FbObj) : World × Answer :=
-  let o' := evalHandle O w.avail o
+  let o' := evalHandle O w.fmtId w.avail o
   (record w o', ⟨o', o'.exc⟩)
 
 /-- `SomeFeedbackClass(**keywords)` -/
